@@ -4,6 +4,7 @@ import json, os, sys
 HERE = os.path.dirname(os.path.dirname(os.path.abspath(__file__)))
 sys.path.insert(0, HERE)
 from eqlsa.props import load_all
+from eqlsa.methods import technique_of
 
 NOT_APPLICABLE = {
     "C15": "equality of result sets between a composed and an inlined expression tree: depends on runtime duplicate "
@@ -24,9 +25,10 @@ for p in props:
             "evidence_file": f"evidence/{pid}.json",
             "replay_cmd_template": "./run replay {path}",
             "engine": "eqlsa",
-            "level_claimed": {"category": "other", "text": s.level_text or s.explanation, "design_ref": s.design_ref},
+            "level_claimed": {"category": "other", "text": (s.level_text or s.explanation) + " Rules deciding the clauses (one line each in RULES.md): "
+                              + ", ".join(dict.fromkeys(r.name for r in s.rules)) + ".", "design_ref": s.design_ref},
             "level_note": s.level_note or ("Trusted base: CPython's ast parser and the eqlsa engine in /verif. " + " ".join(s.assumptions)),
-            "technique": s.technique or "static analysis: AST/CFG rules over the resolved program",
+            "technique": s.technique or technique_of([r.name for r in s.rules]),
         })
     elif pid in NOT_APPLICABLE:
         na.append({"property_id": pid, "reason": NOT_APPLICABLE[pid]})
